@@ -183,6 +183,11 @@ class DirectRun:
             ti = {"L": 4, "M": 3}.get(k)
             if ti is not None and op[ti] is not None and sc == "numpy":
                 op[ti] = np.int64(op[ti])
+            if sc == "numpy":
+                if k == "L":
+                    op[2], op[3] = np.float64(op[2]), np.int64(op[3])
+                elif k == "M":
+                    op[2] = np.int64(op[2])
         if k == "L":
             o = Order(agent_id=op[5], market_id=0, is_buy=op[1], kind=LIMIT_ORDER, volume=op[3], price=op[2], ttl=op[4])
             self.submitted.append(o)
